@@ -58,6 +58,10 @@ var c13Faults = []c13Fault{
 	{"unknown-component", `@component("nope")`, 0, true, "component"},
 	{"each-over-non-array", "@each(v in 5)x@end", 0, false, ""},
 	{"modulo-by-zero", "{{ 5 % 0 }}", 0, false, ""},
+	// a binary operation spread over two lines: operator and right operand stand on the second one
+	{"division-by-zero-second-line", "{{ 1\n/ 0 }}", 1, false, ""},
+	{"type-mismatch-second-line", "{{ 1\n+ \"a\" }}", 1, false, ""},
+	{"modulo-by-zero-second-line", "{{ (2 +\n3)\n% 0 }}", 2, false, ""},
 	// faults of a slot passed to a component (the component file comp9 has several lines of its own)
 	{"undefined-slot", `@component("comp9")@slot("zz")x@end@end`, 0, true, "slot"},
 	{"slot-passed-twice", `@component("comp9")@slot("n")x@end@slot("n")y@end@end`, 0, true, "slot"},
